@@ -156,6 +156,32 @@ func genRepo(c *ctx, out string) {
 	l.p("/-- crlrepository.go:AddCRL — the locations of a newly added, not yet loaded entry are written to its store. -/")
 	l.p("def locationsStoredOnAdd : Bool := %v", stored)
 
+	// signer-certificate retry of AddCRL / tryUpdateSignatureCertFromChain: only for loaded entries?
+	retryA, retryT := "", ""
+	ast.Inspect(add.Body, func(n ast.Node) bool {
+		if as, ok := n.(*ast.AssignStmt); ok && len(as.Lhs) == 1 && exprStr(as.Lhs[0]) == "lastUpdateSignatureVerifyFailed" {
+			retryA = exprStr(as.Rhs[0])
+		}
+		return true
+	})
+	tu := c.funcDecl(rp, "Repository", "tryUpdateSignatureCertFromChain")
+	ast.Inspect(tu.Body, func(n ast.Node) bool {
+		if ifs, ok := n.(*ast.IfStmt); ok && strings.HasPrefix(exprStr(ifs.Cond), "entry.LastUpdateSignatureVerifyFailed") && retryT == "" {
+			retryT = exprStr(ifs.Cond)
+		}
+		return true
+	})
+	retryLoaded := false
+	switch {
+	case retryA == "entry.LastUpdateSignatureVerifyFailed" && retryT == "entry.LastUpdateSignatureVerifyFailed==true":
+	case retryA == "entry.LastUpdateSignatureVerifyFailed&&entry.Loaded" && retryT == "entry.LastUpdateSignatureVerifyFailed==true&&entry.Loaded":
+		retryLoaded = true
+	default:
+		fail("%s: AddCRL / tryUpdateSignatureCertFromChain: retry conditions not recognised (%q, %q)", c.pos(add), retryA, retryT)
+	}
+	l.p("/-- crlrepository.go:AddCRL / tryUpdateSignatureCertFromChain — the stored signer certificate is only replaced for an entry whose list is in use (loaded). -/")
+	l.p("def retryOnlyWhenLoaded : Bool := %v", retryLoaded)
+
 	l.p("/-- crlrepository.go:addNewEmptyEntry — under 'verify' a list found on disk without a stored signer certificate (it was never verified) is not treated as loaded. -/")
 	l.p("def persistedNeedsSignerUnderVerify : Bool := %v", c.loadedInference(c.funcDecl(rp, "Repository", "addNewEmptyEntry")))
 
